@@ -75,6 +75,9 @@ Accept(e) ==
          /\ Ints(e.ra) /\ Ints(e.rb)
          /\ Vals(e.ra) = [i \in 1..12 |-> IF (i - 1) % e.lc = 0 /\ (i - 1) \div e.lc < e.n THEN e.b[((i - 1) \div e.lc) * e.rc + 1] ELSE e.a[i]]
          /\ Vals(e.rb) = [i \in 1..12 |-> IF (i - 1) % e.rc = 0 /\ (i - 1) \div e.rc < e.n THEN e.a[((i - 1) \div e.rc) * e.lc + 1] ELSE e.b[i]]
+    \* components hundreds of binary orders apart, the huge one (2^E, negative or positive, in any position) dominates: every
+    \* norm, scaled back by 2^-E, is 1 to the accuracy of the element type
+    [] e.f = "normmix" -> \A i \in 1..Len(e.vals) : NearTol(e.vals[i], RQ(1))
     [] e.f = "angle" -> NearTol(e.deg, RQ(45 * e.q)) /\ NearTol(e.rad4, RQ(e.q))
     [] e.f = "coord" ->
          \* Pythagorean points on the axes / in the quadrants: radius exact, angle in the right octant (units of pi/4), round trip
